@@ -90,8 +90,17 @@ def verify_function(world, reg, c, prop, timeout_ms=20000, mutate=None, recheck=
       params.append(node.args.vararg.arg)
     if node.args.kwarg and node.args.kwarg.arg not in c.types:
       env[node.args.kwarg.arg] = VDict({})          # the verified instance passes no keyword arguments
+    # a parameter the contract does not know but that has a default (an option added later): the contract describes the
+    # calls that do not pass it, so it takes its default value
+    a_ = node.args
+    pos = a_.posonlyargs + a_.args
+    defaults = {x.arg: d for x, d in zip(pos[len(pos) - len(a_.defaults):], a_.defaults)}
+    defaults.update({x.arg: d for x, d in zip(a_.kwonlyargs, a_.kw_defaults) if d is not None})
     for p in params:
       ty = c.types.get(p)
+      if ty is None and p in defaults:
+        env[p] = it.ev(defaults[p], {'__module__': mod})
+        continue
       if ty is None:
         raise Unsupported(f'no type for parameter {p} of {c.target}')
       env[p] = it.fresh(ty, p)
